@@ -706,8 +706,11 @@ class PreferredSrcSRS(object):
             return target
         if target in self.target_proj:
             for preferred in self.target_proj[target]:
-                if preferred in available_src:
-                    return preferred
+                for avail in available_src:
+                    # return the configured SRS, it can have a different
+                    # srs_code (EPSG:3857/900913)
+                    if avail == preferred:
+                        return avail
 
         for avail in available_src:
             if avail.is_latlong == target.is_latlong:
